@@ -1,7 +1,7 @@
 """Independent codecs used as oracles. Nothing here imports from ``mysensors``."""
 import re
 
-CANON_LINE = re.compile(r"^-?\d+(;-?\d+){4};[^\n]*\n$")
+CANON_LINE = re.compile(r"^-?[0-9]+(;-?[0-9]+){4};[^\n]*\n$")
 
 
 class Malformed(Exception):
